@@ -225,6 +225,37 @@ def geo_worlds(tier: str, seed: int, *, convs=W.ALL_CONVS, big: bool = True) -> 
         wide["lon_dtype"] = "int32"
         wide["pin_via"] = "memory"
         out.append(wide)
+    if "cf1d" in convs:
+        # explicit bounds whose rows are not chained: a descending axis with every row written (lower, upper), and cells
+        # that stop short of their neighbours
+        out.append(structured_world("cf1d", 3, 3, bounds=True, descending=(False, True), rows="minmax"))
+        out.append(structured_world("cf1d", 2, 3, bounds=True, descending=(True, False), rows="minmax", gap=4, nonuniform=True))
+        # a grid that straddles the equator and the prime meridian, the shared edge written +0.0 by one cell and -0.0 by the other
+        nz = structured_world("cf1d", 2, 3, bounds=True)
+        nz = shifted(nz, -nz["geom"]["xb"][1][0], -nz["geom"]["yb"][1][0])
+        nz["negzero"] = True
+        nz["pin_via"] = "memory"
+        out.append(nz)
+    for conv in ("cf2d", "shoc_simple"):
+        if conv not in convs:
+            continue
+        nz = structured_world(conv, 2, 2, shape="rect", bounds=True)
+        nz = shifted(nz, -nz["geom"]["xb"][0][0][1], -nz["geom"]["yb"][0][0][2])
+        nz["negzero"] = True
+        nz["pin_via"] = "memory"
+        out.append(nz)
+        lab = structured_world(conv, 2, 3, shape="skew", bounds=True)
+        lab["dim_labels"] = True
+        out.append(lab)
+    if "ugrid" in convs:
+        # every face has the same number of nodes but the table is wider (all quads in a table six wide, integer fill -1;
+        # all triangles in a table four wide, large fill)
+        out.append(mesh_world(W.mesh_from_squares([["Q", "Q"], ["Q", "Q"]], shape="skew"), enc=dict(base=0, fill="intfill", fillvalue=-1, pad_to=6), edges=True))
+        out.append(mesh_world(W.mesh_from_squares([["A", "B"], ["B", "A"]], shape="rect"), enc=dict(base=1, fill="intfill", pad_to=4)))
+        # coordinate attributes separated by two blanks; index coordinates on the mesh dimensions
+        lab = mesh_world(W.mesh_from_squares([["Q", "A"], ["B", "Q"]], shape="skew"), enc=dict(base=0, fill="intfill", coord_sep="  "), edges=True, centres=True)
+        lab["dim_labels"] = True
+        out.append(lab)
     for w in out:
         # connectivity with an integer fill value next to the index range only exists undecoded, i.e. as built in memory
         if w["conv"] == "ugrid" and (w.get("enc") or {}).get("fillvalue") is not None:
